@@ -139,6 +139,11 @@ func checkBothWays(c *core.Case, family string, t reflect.Type, md protoreflect.
 				continue
 			}
 		}
+		if k > 0 && len(in) > 1 && c.Index%2 == 0 {
+			// history: a decode of the same type that fails inside its last field first
+			core.Guard(func() { proto.Unmarshal(in[:len(in)-1:len(in)-1], reflect.New(t).Interface()) })
+			c.Count("history.failed-decodes", 1)
+		}
 		out := reflect.New(t)
 		var ue error
 		if sig, stk := core.Guard(func() { ue = proto.Unmarshal(append([]byte(nil), in...), out.Interface()) }); sig != "" {
@@ -286,6 +291,114 @@ func witnessEmptyMapMarker(c *core.Case) {
 	}
 }
 
+// ---- map entries with absent members, after decodes that failed inside an entry --------------------
+
+type mapHist struct {
+	S map[string]string `protobuf:"bytes,1,rep,name=s" protobuf_key:"bytes,1,opt,name=key" protobuf_val:"bytes,2,opt,name=value"`
+	I map[int64]int64   `protobuf:"bytes,2,rep,name=i" protobuf_key:"varint,1,opt,name=key" protobuf_val:"varint,2,opt,name=value"`
+	B map[string][]byte `protobuf:"bytes,3,rep,name=b" protobuf_key:"bytes,1,opt,name=key" protobuf_val:"bytes,2,opt,name=value"`
+	U map[uint32]string `protobuf:"bytes,4,rep,name=u" protobuf_key:"varint,1,opt,name=key" protobuf_val:"bytes,2,opt,name=value"`
+}
+
+func runMapHistory(c *core.Case) {
+	r := c.Rng
+	c.Journal("map-entry-history")
+	field := r.Range(1, 4)
+	entry := func(key, val []byte, withKey, withVal bool, cut int) []byte {
+		var e []byte
+		if withKey {
+			e = append(e, key...)
+		}
+		if withVal {
+			e = append(e, val...)
+		}
+		if cut > 0 && cut < len(e) {
+			e = e[:len(e)-cut]
+		}
+		out := protowire.AppendTag(nil, protowire.Number(field), protowire.BytesType)
+		return protowire.AppendBytes(out, e)
+	}
+	mkKey := func() ([]byte, any) {
+		switch field {
+		case 1, 3:
+			k := r.ASCIIString(1, 8)
+			return protowire.AppendString(protowire.AppendTag(nil, 1, protowire.BytesType), k), k
+		case 2:
+			k := r.Int64()
+			return protowire.AppendVarint(protowire.AppendTag(nil, 1, protowire.VarintType), uint64(k)), k
+		default:
+			k := uint32(r.Uint64B())
+			return protowire.AppendVarint(protowire.AppendTag(nil, 1, protowire.VarintType), uint64(k)), k
+		}
+	}
+	mkVal := func() ([]byte, any) {
+		switch field {
+		case 1, 4:
+			v := r.ASCIIString(1, 8)
+			return protowire.AppendString(protowire.AppendTag(nil, 2, protowire.BytesType), v), v
+		case 2:
+			v := r.Int64()
+			return protowire.AppendVarint(protowire.AppendTag(nil, 2, protowire.VarintType), uint64(v)), v
+		default:
+			v := r.Bytes(r.Range(1, 6))
+			return protowire.AppendBytes(protowire.AppendTag(nil, 2, protowire.BytesType), v), v
+		}
+	}
+	// 1. decodes that fail inside an entry, after its key and / or value were read
+	for k := r.Range(1, 3); k > 0; k-- {
+		kb, _ := mkKey()
+		vb, _ := mkVal()
+		bad := entry(kb, vb, true, true, 0)
+		switch r.Intn(3) {
+		case 0:
+			bad = append(bad[:len(bad):len(bad)], 0x80) // trailing garbage after a complete entry
+		case 1:
+			bad = entry(kb, append(vb, 0x1a, 0x05), true, true, 0) // an unknown member that is truncated
+		default:
+			bad = entry(kb, append(vb, 0xff), true, true, 0)
+		}
+		var sink mapHist
+		core.Guard(func() { proto.Unmarshal(bad, &sink) })
+	}
+	// 2. a message whose entries leave out the key, the value, or nothing
+	var in []byte
+	n := r.Range(1, 4)
+	for i := 0; i < n; i++ {
+		kb, _ := mkKey()
+		vb, _ := mkVal()
+		mode := r.Intn(3)
+		in = append(in, entry(kb, vb, mode != 0, mode != 1, 0)...)
+	}
+	md, err := pdesc.Descriptor(reflect.TypeOf(mapHist{}))
+	if err != nil {
+		c.Count("generator.no-descriptor", 1)
+		return
+	}
+	ref := dynamicpb.NewMessage(md)
+	if e := refproto.Unmarshal(in, ref); e != nil {
+		c.Count("generator.reference-rejects", 1)
+		return
+	}
+	wv := pdesc.FromDynamic(ref, reflect.TypeOf(mapHist{}))
+	want := wv.Interface()
+	var got mapHist
+	var ue error
+	if sig, stk := core.Guard(func() { ue = proto.Unmarshal(in, &got) }); sig != "" {
+		c.Violation("map-entry-history", sig, stk, nil)
+		return
+	}
+	if ue != nil {
+		c.Violation("map-entry-history", "rejected", fmt.Sprintf("Unmarshal rejects %x: %v", tr(in), ue), nil)
+		return
+	}
+	if ok, d := ptypes.Equal(wv, reflect.ValueOf(&got).Elem()); !ok {
+		c.Violation("map-entry-history", "entry-with-absent-member-decodes-differently", fmt.Sprintf("%s | after decodes of the same type that failed inside a map entry, %x decodes to %+v, the reference implementation gives %+v", d, tr(in), got, want), map[string]any{"input_hex": fmt.Sprintf("%x", in)})
+		return
+	}
+	c.Count("map-entry-history.checked", 1)
+	c.Distinct(core.HashBytes(in), true)
+}
+
 // ---- custom message types nested in messages ----------------------------------------------------
 
 type customHolder struct {
@@ -393,10 +506,11 @@ func init() {
 	core.Register(&core.Monitor{
 		Prop:      "C12",
 		Witnesses: map[string]func(*core.Case){"empty-map-marker": witnessEmptyMapMarker},
-		Rule:      "generated: a message type from the C03 generator restricted to kinds with a .proto equivalent (no byte arrays, no custom types) and its descriptor (proto2 syntax, fields numbered by declaration order or tag, Go kinds mapped by the table of proto.TypeOf, sint/fixed from tags, unpacked repeated scalars, nested messages, map entries) x 2 values. Direction 1: proto.Marshal output is unmarshalled by dynamicpb (no error, no unknown fields) and converted back to a Go value that must equal the original (nil == empty; floats by ==). Direction 2: the value is marshalled deterministically by the reference implementation and given to proto.Unmarshal as is and in 5 legal re-encodings (fields reordered, non-minimal varints in tags/lengths/values, an overridden earlier occurrence of singular scalars, singular embedded messages split into two occurrences, map entries with the value first; each re-encoding is first checked to be equivalent for the reference implementation). proto.TypeOf is compared with the descriptor (number, kind, repeated). Distinct by type string. custom-fields: fields whose Go type implements Message or the gogo-style interface (by value, by pointer, repeated; RawMessage) must appear as tag, length and exactly the bytes of the type's own Marshal, checked with the reference scanner. The package's empty-map marker is stripped before direction 1 and reported by its own sub-monitor.",
+		Rule:      "generated: a message type from the C03 generator restricted to kinds with a .proto equivalent (no byte arrays, no custom types) and its descriptor (proto2 syntax, fields numbered by declaration order or tag, Go kinds mapped by the table of proto.TypeOf, sint/fixed from tags, unpacked repeated scalars, nested messages, map entries) x 2 values. Direction 1: proto.Marshal output is unmarshalled by dynamicpb (no error, no unknown fields) and converted back to a Go value that must equal the original (nil == empty; floats by ==). Direction 2: the value is marshalled deterministically by the reference implementation and given to proto.Unmarshal as is and in 5 legal re-encodings (fields reordered, non-minimal varints in tags/lengths/values, an overridden earlier occurrence of singular scalars, singular embedded messages split into two occurrences, map entries with the value first or with a zero-valued key/value left out; every second case a failing decode of the truncated input precedes the decode; each re-encoding is first checked to be equivalent for the reference implementation). proto.TypeOf is compared with the descriptor (number, kind, repeated). Distinct by type string. map-entry-history: after 1-3 decodes that fail inside a map entry (trailing garbage, truncated unknown member), a message whose map entries leave out the key or the value (absent = zero) must decode as the reference implementation decodes it. custom-fields: fields whose Go type implements Message or the gogo-style interface (by value, by pointer, repeated; RawMessage) must appear as tag, length and exactly the bytes of the type's own Marshal, checked with the reference scanner. The package's empty-map marker is stripped before direction 1 and reported by its own sub-monitor.",
 		Trusted:   []string{"google.golang.org/protobuf v1.25.0 (dynamicpb, protodesc, protowire) as the reference implementation", "the descriptor builder gen/pdesc (transcription of the proto.TypeOf table and of the struct tag grammar)", "gen/pwire.Reencode, each output validated against the reference implementation before use"},
 		Subs: []core.Sub{
 			{Name: "generated", N: core.Const(12000, 400000), Run: runGenerated},
+			{Name: "map-entry-history", N: core.Const(3000, 100000), Run: runMapHistory},
 			{Name: "custom-fields", N: core.Const(2000, 50000), Run: runCustom},
 			{Name: "empty-map-marker", N: core.Const(1, 1), Run: func(c *core.Case) { witnessEmptyMapMarker(c); c.Distinct(5, true) }},
 		},
